@@ -1,4 +1,6 @@
 import RxnModel.Proofs.FilesLineage
+import RxnModel.Proofs.FilesMulti
+import RxnModel.Proofs.FilesSteps
 /-!
 # C09 — files needed by retained checkpoints or live tables are never deleted
 
@@ -16,16 +18,25 @@ PARTIAL, by nature and by finding:
   is already taken overwrites that file (`clobber`) — an overwrite is a deletion of the older content — and
   `Checkpoint.Destroy` deletes by name (`rmWals`). The global theorems therefore say: no file — table or WAL —
   referenced by a retained checkpoint document is deleted or overwritten.
-* the global theorem is proved for one operator lineage: one running instance at a time over any number of crash +
-  reopen generations (`no_needed_file_deleted_lineage_partial`; `no_needed_file_deleted_partial` is the one-generation
-  case, which also lets a crashed instance's leftover garbage be collected).
+* the global invariant `Safe` (every needed file exists) is proved for two families of histories:
+  - `no_needed_file_deleted_concurrent_partial`: any number of operators running at the same time, opened empty, each
+    in its own directory, never reopened (the deployment without rescale and restart);
+  - `no_needed_file_deleted_lineage_partial`: one operator over any number of crash + reopen generations, one running
+    instance at a time (`no_needed_file_deleted_partial` is its one-generation case, which also lets a crashed
+    instance's leftover garbage be collected).
+  Not proved: concurrent operators that also restart (the two scopes are not composed), and restores that share tables.
   The full statement
     `∀ as s, run {} as = some s → Safe s`   (any number of instances, crashes, releases, restores, rescales)
   is FALSE of the code as it is: `d25_counterexample` (an instance released inside a living process deletes the files
-  of its retained checkpoint) and `d34_counterexample` (after a rescale-out a table is deleted although another
-  running instance, whose key range does not overlap it, still lists it). Both are open findings (D25, D34).
-  For several instances the per-step theorems (`collect_deletes_only_unreachable`, `shared_table_needs_all_no`,
-  `error_means_keep`, `neighbour_no_is_truthful`, `wal_gc`) hold without restriction.
+  of its retained checkpoint), `d34_counterexample` (after a rescale-out a table is deleted although another running
+  instance, whose key range does not overlap it, still lists it), `d50_counterexample` (a same-directory reopen drops
+  the document entries of older retained checkpoints). All three are open findings (D25, D34, D50).
+* for ALL histories (any number of instances, restores, rescales, releases) the theorems
+  `table_file_removed_only_by_justified_collect`, `error_means_keep` and
+  `wal_file_removed_only_by_retention_or_overwrite` say who can remove a file and why; `wal_gc` is the exact file
+  set after a retention update; `two_read_no_is_final` and `restore_numbers_above_loaded` cover the two-read
+  `NeedsTable` and the WAL numbering after a restore from several handles.
+  One-step unfoldings of the rules are lemmas in `Proofs/FilesSteps.lean`, not property theorems.
 -/
 namespace Rxn.C09
 open Rxn Rxn.Files
@@ -98,11 +109,43 @@ example : (runL (init1 ⟨0, 8⟩ []) lineageTrace).map (fun s => (s.files, need
 /-- while the job retains checkpoint 1 the second generation cannot collect the restored table -/
 example : runL (init1 ⟨0, 8⟩ []) (lineageTrace.take 9 ++ [.collect 1 "a0" []]) = none := by decide
 
-/-! ## WAL deletion at the save after a retention update -/
+/-! ## the global invariant for operators running at the same time (no rescale, no restart) -/
 
-/-- a checkpoint is kept exactly if its id is listed or it is newer than every listed id -/
-theorem keeps_iff (ids : List Nat) (c : Ckpt) : keeps ids c = true ↔ c.id ∈ ids ∨ ids.foldl max 0 < c.id := by
-  simp [keeps]
+/-- Concurrency: any number of operators, each opened empty at any moment in a storage directory of its own, running
+at the same time with arbitrarily interleaved flushes, compactions, checkpoints (the same job checkpoint id on several
+operators), job drops, retention updates that drop only checkpoints the job has dropped, snapshots, collections of
+any unreachable table object of any instance at any moment with any neighbour answers, failed redeploys and crashes
+(a crashed operator is not reopened). In every state every file — table or WAL — referenced by a job-retained
+checkpoint of any operator and every table of every running operator's level list is in the file store: no
+operator's cleanup, retention update or WAL seal touches a file of another operator.
+Scope (`inScopeN`), i.e. what remains excluded: restores (`openFrom`: restart and rescale — the one-operator restart
+case is `no_needed_file_deleted_lineage_partial`; concurrent operators that restart, and operators that share tables
+after a rescale, are covered only by the per-history deletion theorems below and refuted in general by D34) and
+in-process release (D25). -/
+theorem no_needed_file_deleted_concurrent_partial (as : List Act) (s : State) (h : runN {} as = some s) :
+    ∀ f ∈ needed s, f ∈ s.files :=
+  (runN_invN invN_init h).safe
+
+/-- …and every job-retained checkpoint of every operator is still listed, with the same tables and WALs, in the
+checkpoint list (= saved document) of the operator that wrote it. -/
+theorem retained_checkpoint_listed_concurrent_partial (as : List Act) (s : State) (h : runN {} as = some s) :
+    ∀ hd ∈ s.retained, ∃ d, s.insts[hd.writer]? = some d ∧
+      ∃ c ∈ d.ckpts, c.id = hd.id ∧ c.tables = hd.tables ∧ c.wals = hd.wals :=
+  fun hd hh => ((runN_invN invN_init h).own hd hh).2
+
+/-- two operators interleaved: both take job checkpoint 1 and 2, compact, the job drops 1, both apply the retention
+update (each deleting its own WAL 0 only) and collect their garbage; operator 0 crashes -/
+def concurrentTrace : List Act :=
+  [.openFresh ⟨0, 4⟩ 0 [⟨4, 8⟩] 0, .flush 0 ⟨"a0", 0, 3⟩, .openFresh ⟨4, 8⟩ 0 [⟨0, 4⟩] 1, .flush 1 ⟨"b0", 4, 7⟩,
+   .ckpt 0 1 ⟨0, 0, 0⟩, .ckpt 1 1 ⟨1, 0, 0⟩, .flush 0 ⟨"a1", 1, 2⟩, .compact 0 ["a0", "a1"] [⟨"a2", 0, 3⟩],
+   .flush 1 ⟨"b1", 5, 5⟩, .ckpt 1 2 ⟨1, 1, 0⟩, .ckpt 0 2 ⟨0, 1, 0⟩, .jobDrop 1, .retain 1 [2], .collect 0 "a1" [.no],
+   .retain 0 [2], .collect 0 "a0" [.err], .crash 0, .compact 1 ["b0", "b1"] [⟨"b2", 4, 7⟩]]
+
+example : (runN {} concurrentTrace).map (fun s => (s.files, needed s)) =
+    some ([.sst "b2", .wal ⟨0, 1, 0⟩, .wal ⟨1, 1, 0⟩, .sst "b1", .sst "a2", .sst "b0"],
+          [.sst "b2", .sst "a2", .wal ⟨0, 1, 0⟩, .sst "b1", .sst "b0", .wal ⟨1, 1, 0⟩]) := by decide
+
+/-! ## WAL deletion at the save after a retention update -/
 
 /-- `UpdateRetainedCheckpoints(ids)`: afterwards exactly the files that have the NAME of a WAL of a dropped checkpoint
 are gone (`Checkpoint.Destroy` deletes by name) — no table file, no WAL of a kept checkpoint unless a dropped
@@ -134,11 +177,6 @@ theorem wal_gc (s s' : State) (i : Nat) (ids : List Nat) (x : Inst) (hx : s.inst
 
 /-! ## WAL numbering: a restored instance never writes over a WAL of the checkpoint it loaded -/
 
-/-- `Checkpoint.NextWALID` (`c09NextWalIsMax`): the number of the first WAL a restored instance writes is larger than
-the number of EVERY WAL handle of the loaded checkpoint, whatever the order of the handles. -/
-theorem next_wal_above_all_handles (ws : List Wal) : ∀ w ∈ ws, w.num < nextWalId ws :=
-  nextWalId_gt ws
-
 /-- Restore from any number of checkpoint handles (scale-in included), into any directory — also the directory of
 one of the writers: the new instance numbers its WALs above every WAL of the composite checkpoint, so sealing WALs at
 later checkpoints can never have the file name of a WAL the loaded checkpoint references. -/
@@ -162,109 +200,55 @@ theorem restore_numbers_above_loaded (s s' : State) (r : KGRange) (g : Nat) (n :
       have hk' : nextWalId wl ≤ k := hk
       omega)
 
-/-- Sealing a WAL at a checkpoint removes no table file and no WAL file with another name. Any number of instances. -/
-theorem sealed_wal_overwrites_only_its_name (s s' : State) (i id : Nat) (wal : Wal)
-    (h : step s (.ckpt i id wal) = some s') :
-    ∀ f ∈ s.files, (∀ v, f = .wal v → wal.same v = false) → f ∈ s'.files := by
-  simp only [step] at h
-  split at h
-  · simp at h
-  · split at h
-    · injection h with h; subst h
-      intro f hf hv
-      exact List.mem_cons_of_mem _ (mem_clobber.mpr ⟨hf, hv⟩)
-    · simp at h
+/-! ## who removes a file, in any history of any number of instances -/
 
-/-! ## what a collection can delete -/
+/-- In ANY history — any number of instances, restores, rescales, releases, any neighbour answers — a table file
+disappears only through a collection of an object for that very table that was unreachable in its instance (in no
+level list the instance holds), and either the instance wrote the table itself, or it loaded it and the table's key
+groups lie inside its own range, or EVERY neighbour whose range overlaps the table answered a definite "no". -/
+theorem table_file_removed_only_by_justified_collect (s0 s : State) (as : List Act) (u : Path)
+    (h : run s0 as = some s) (hin : File.sst u ∈ s0.files) (hout : File.sst u ∉ s.files) :
+    ∃ pre i answers post sm x, as = pre ++ Act.collect i u answers :: post ∧ run s0 pre = some sm ∧
+      sm.insts[i]? = some x ∧ x.unreachable u = true ∧
+      (u ∈ x.created ∨ ∃ t ∈ x.loaded, t.uri = u ∧
+        (Gen.kgContains x.range t.span = true ∨
+          ∀ ra ∈ x.nbrs.zip answers, Gen.kgOverlaps ra.1 t.span = true → ra.2 = .no)) :=
+  run_removes_sst h hin hout
 
-/-- A cleanup runs only for an unreachable object, can remove only that object's file, and removes it only if the
-object was written by the instance itself or the ownership rule said delete. Any number of instances. -/
-theorem collect_deletes_only_unreachable (s s' : State) (i : Nat) (u : Path) (answers : List Ans) (x : Inst)
-    (hx : s.insts[i]? = some x) (h : step s (.collect i u answers) = some s') :
-    x.unreachable u = true ∧ (∀ f ∈ s.files, f ≠ .sst u → f ∈ s'.files) ∧
-    (.sst u ∈ s.files → .sst u ∉ s'.files → u ∈ x.created ∨
-      ∃ t ∈ x.loaded, t.uri = u ∧ decision x.range t (x.nbrs.zip answers) = .delete) :=
-  let ⟨a, b, _, d⟩ := collect_effect hx h
-  ⟨a, b, d⟩
-
-/-- For a running instance "unreachable" means: in no level list the instance holds — not the current one, not one
-captured by a checkpoint in its list, not a snapshot of a reader or compaction. -/
-theorem unreachable_alive (x : Inst) (u : Path) (hl : x.life = .alive) (h : x.unreachable u = true) :
-    u ∉ uris x.current ∧ (∀ c ∈ x.ckpts, u ∉ uris c.tables) ∧ ∀ sn ∈ x.snaps, u ∉ uris sn := by
-  have hr : x.refs u = false := by simpa [Inst.unreachable, hl] using h
-  refine ⟨?_, ?_, ?_⟩
-  · intro hu; rw [refs_iff.mpr (Or.inl hu)] at hr; cases hr
-  · intro c hc hu; rw [refs_iff.mpr (Or.inr (Or.inl ⟨c, hc, hu⟩))] at hr; cases hr
-  · intro sn hsn hu; rw [refs_iff.mpr (Or.inr (Or.inr ⟨sn, hsn, hu⟩))] at hr; cases hr
-
-/-- A table loaded from a checkpoint document whose key-group span is not inside the operator's own range is deleted
-only if every neighbour whose range overlaps the table answered a definite "no". -/
-theorem shared_table_needs_all_no (own : KGRange) (t : Tbl) (nbrs : List (KGRange × Ans))
-    (hnc : Gen.kgContains own t.span = false) (h : decision own t nbrs = .delete) :
-    ∀ ra ∈ nbrs, Gen.kgOverlaps ra.1 t.span = true → ra.2 = .no := by
-  rcases decision_delete_cases own t nbrs h with hc | hall
-  · rw [hc] at hnc; cases hnc
-  · exact hall
-
-/-- error ⇒ keep: if a neighbour whose range overlaps a shared table could not be asked (error) or does not answer
-(timeout), collecting the table object never deletes the file. (D9, repaired: `c09OwnsErrKeeps`.) -/
-theorem error_means_keep (s s' : State) (i : Nat) (u : Path) (answers : List Ans) (x : Inst)
-    (hx : s.insts[i]? = some x) (h : step s (.collect i u answers) = some s')
-    (hload : u ∉ x.created)
-    (hbad : ∀ t ∈ x.loaded, t.uri = u → Gen.kgContains x.range t.span = false ∧
-      ∃ ra ∈ x.nbrs.zip answers, Gen.kgOverlaps ra.1 t.span = true ∧ (ra.2 = .err ∨ ra.2 = .hang))
-    (hin : .sst u ∈ s.files) : .sst u ∈ s'.files := by
-  obtain ⟨_, _, _, hd⟩ := collect_effect hx h
-  by_cases hout : File.sst u ∈ s'.files
+/-- error ⇒ keep, for whole histories (D9, repaired: `c09OwnsErrKeeps`; no deadline, errors never swallowed:
+`c09OwnsNoDeadline`, `c09OwnsErrPassed`): if along a history every collection of a loaded object for table `u` whose
+key groups are not inside the collecting operator's own range has some overlapping neighbour that could not be asked
+(error), did not answer (timeout) or said it needs the table, and no instance that wrote `u` itself collects it,
+then the file of `u` is never deleted. -/
+theorem error_means_keep (s0 s : State) (as : List Act) (u : Path) (h : run s0 as = some s)
+    (hin : File.sst u ∈ s0.files)
+    (hbad : ∀ pre i answers post sm x, as = pre ++ Act.collect i u answers :: post → run s0 pre = some sm →
+      sm.insts[i]? = some x → u ∉ x.created ∧ ∀ t ∈ x.loaded, t.uri = u → Gen.kgContains x.range t.span = false ∧
+        ∃ ra ∈ x.nbrs.zip answers, Gen.kgOverlaps ra.1 t.span = true ∧ ra.2 ≠ .no) :
+    File.sst u ∈ s.files := by
+  by_cases hout : File.sst u ∈ s.files
   · exact hout
-  · rcases hd hin hout with hc | ⟨t, ht, hu, hdel⟩
-    · exact absurd hc hload
-    · obtain ⟨hnc, ra, hra, ho, hans⟩ := hbad t ht hu
-      have hans' : ra.2 = .err ∨ ra.2 = .hang ∨ ra.2 = .needs := by
-        rcases hans with e | e
-        · exact Or.inl e
-        · exact Or.inr (Or.inl e)
-      exact absurd hdel (decision_ne_delete x.range t _ hnc ⟨ra, hra, ho, hans'⟩)
+  · obtain ⟨pre, i, answers, post, sm, x, has, hpre, hx, _, hwhy⟩ := run_removes_sst h hin hout
+    obtain ⟨hnc, hl⟩ := hbad pre i answers post sm x has hpre hx
+    rcases hwhy with hc | ⟨t, ht, htu, hd⟩
+    · exact absurd hc hnc
+    · obtain ⟨hcont, ra, hra, ho, hne⟩ := hl t ht htu
+      rcases hd with hd | hd
+      · rw [hd] at hcont; cases hcont
+      · exact absurd (hd ra hra ho) hne
 
-/-- An operator whose redeploy fails (or is still loading) keeps serving the instance it had: nothing it holds
-changes, so its `NeedsTable` answers stay what they were (`HandleDeploy` assigns `o.db` only after `dkv.Open`
-returned). The correspondence drives a real `operator.Operator` through a failing `HandleDeploy` and asks it through
-`HandleNeedsTable` in that window. -/
-theorem failed_redeploy_keeps_serving (s s' : State) (i : Nat) (h : step s (.redeployFailed i) = some s') :
-    s' = s ∧ ∃ x, s.insts[i]? = some x ∧ x.life = .alive := by
-  simp only [step] at h
-  split at h
-  · simp at h
-  · rename_i x hx
-    split at h
-    · rename_i hl
-      injection h with h
-      exact ⟨h.symm, x, hx, hl⟩
-    · simp at h
-
-/-- the pure rule behind it -/
-theorem error_means_keep_rule (own : KGRange) (t : Tbl) (nbrs : List (KGRange × Ans))
-    (hnc : Gen.kgContains own t.span = false)
-    (h : ∃ ra ∈ nbrs, Gen.kgOverlaps ra.1 t.span = true ∧ (ra.2 = .err ∨ ra.2 = .hang)) :
-    decision own t nbrs ≠ .delete := by
-  obtain ⟨ra, hra, ho, hans⟩ := h
-  refine decision_ne_delete own t nbrs hnc ⟨ra, hra, ho, ?_⟩
-  rcases hans with e | e
-  · exact Or.inl e
-  · exact Or.inr (Or.inl e)
-
-/-- A neighbour's "no" (`DB.NeedsTable = false`) means the table is in none of its retained checkpoints — whether
-loaded from a document or taken by the instance itself — and not in its live level list. (D24, repaired:
-`c09NeedsChecksLive`, `c09CkptUsesLevels`.) -/
-theorem neighbour_no_is_truthful (x : Inst) (u : Path) (h : needsTable x u = false) :
-    u ∉ uris x.current ∧ ∀ c ∈ x.ckpts, u ∉ uris c.tables :=
-  needsTable_false h
+/-- In ANY history a WAL file disappears only when a checkpoint seals a WAL of the same file name (overwrite) or a
+retention update drops a checkpoint that references a WAL of that name — nothing else ever removes a WAL, and a
+retention update removes the WALs of exactly the checkpoints it drops (`wal_gc`). -/
+theorem wal_file_removed_only_by_retention_or_overwrite (s0 s : State) (as : List Act) (v : Wal)
+    (h : run s0 as = some s) (hin : File.wal v ∈ s0.files) (hout : File.wal v ∉ s.files) :
+    ∃ pre a post sm, as = pre ++ a :: post ∧ run s0 pre = some sm ∧
+      ((∃ i id wal, a = .ckpt i id wal ∧ wal.same v = true) ∨
+       (∃ i ids x, a = .retain i ids ∧ sm.insts[i]? = some x ∧
+          ∃ c ∈ x.ckpts, keeps ids c = false ∧ ∃ w ∈ c.wals, w.same v = true)) :=
+  run_removes_wal h hin hout
 
 /-! ## `NeedsTable` is two reads -/
-
-/-- with nothing in between the two reads give the atomic answer -/
-theorem needsTable2_same (x : Inst) (u : Path) : needsTable2 x x u = needsTable x u := by
-  simp [needsTable2, needsFirst, needsSecond, Facts.c09NeedsLiveFirst, readLive, readCkpts, needsTable, Bool.or_comm]
 
 /-- A "no" is final (D46, repaired: `c09NeedsLiveFirst`). `DB.NeedsTable` reads the live level list in state `s1` and
 the checkpoint list in a later state `s2`; any actions of any instance — checkpoints, compaction commits, retention
@@ -323,6 +307,18 @@ example : decision ⟨0, 4⟩ ⟨"t", 2, 5⟩ [(⟨4, 8⟩, .no)] = .delete ∧
     decision ⟨0, 4⟩ ⟨"t", 1, 3⟩ [(⟨4, 8⟩, .needs)] = .delete := by decide
 
 /-! ## the unrestricted statement is false of the code as it is (open findings) -/
+
+/-- D50: an instance reopened in the directory of the instance it restores from saves a checkpoints document that
+starts at the restored checkpoint: the entry of the older checkpoint 1, which the job still retains, is gone (the
+files it references are still there). -/
+def d50Trace : List Act :=
+  [.openFresh ⟨0, 8⟩ 0 [] 0, .flush 0 ⟨"t0", 0, 7⟩, .ckpt 0 1 ⟨0, 0, 0⟩, .ckpt 0 2 ⟨0, 1, 0⟩, .crash 0,
+   .openFrom ⟨0, 8⟩ 1 [] [0] 2 0, .ckpt 1 3 ⟨0, 2, 0⟩]
+
+theorem d50_counterexample :
+    (run {} d50Trace).map (fun s => (s.retained.map (fun h => (h.writer, h.id)), docEntry s 0 1, missing s)) =
+      some ([(1, 3), (0, 2), (0, 1)], none, []) := by decide
+
 
 /-- D25: open; write; checkpoint 1; the instance is released inside the living process (operator redeploy); the next
 collection deletes the table although checkpoint 1 is retained. -/
